@@ -6,6 +6,7 @@ import (
 	"math/rand"
 	"os"
 	"path/filepath"
+	"runtime/debug"
 	"strings"
 	"sync"
 	"sync/atomic"
@@ -30,9 +31,10 @@ import (
 const maxTokens = 1<<19 + 16
 
 type lexResult struct {
-	Toks  []lexer.Token
-	Err   error
-	Panic any
+	Toks   []lexer.Token
+	Err    error
+	Panic  any
+	Stream lexer.TokenStream // set when the stream was not reclaimed
 }
 
 // lexAll lexes the input and drains the stream up to and including the EOF token.
@@ -56,8 +58,20 @@ func lexAll(input []byte, reclaim bool) (res lexResult) {
 	}
 	if reclaim {
 		ts.Reclaim()
+	} else {
+		res.Stream = ts
 	}
 	return
+}
+
+func sameToken(a, b lexer.Token) bool {
+	if a.Type != b.Type || a.Range != b.Range {
+		return false
+	}
+	if a.SpaceOrError == nil && b.SpaceOrError == nil {
+		return true
+	}
+	return fmt.Sprint(a.SpaceOrError) == fmt.Sprint(b.SpaceOrError)
 }
 
 func tokKey(t lexer.Token) string {
@@ -77,8 +91,29 @@ func isBlockCommentToken(t lexer.TokenType) bool {
 // the column although no code point was consumed, so every later position on that line is reported one
 // column too far per empty token. With allowDrift the reported column may be recomputed+drift where drift is
 // exactly that count; usedDrift tells the caller that the allowance was needed.
-func checkTokens(input []byte, res lexResult, pt posTable, allowDrift bool) (msg string, fs3 bool, usedDrift bool) {
-	msg, fs3, usedDrift = checkTokens1(input, res, pt, allowDrift)
+func checkTokens(input []byte, res lexResult, pt posTable, allowDrift bool) (msg string, finding string, usedDrift bool) {
+	msg, fs3, usedDrift := checkTokens1(input, res, pt, allowDrift)
+	if fs3 {
+		finding = "FS3"
+	}
+	if msg != "" && !fs3 && strings.HasPrefix(msg, "tokens cover only") {
+		// FS6: inside a template expression a backslash that is not followed by `(` is skipped silently
+		// (with the following code point); at the end of the input it is covered by no token.
+		covered := 0
+		sawTemplate := false
+		for _, t := range res.Toks {
+			if t.Type == lexer.TokenStringTemplate {
+				sawTemplate = true
+			}
+			if t.Type != lexer.TokenEOF && t.Type != lexer.TokenError {
+				covered = t.EndPos.Offset + 1
+			}
+		}
+		rest := input[covered:]
+		if sawTemplate && len(rest) >= 1 && rest[0] == '\\' && !bytes.HasPrefix(rest, []byte("\\(")) && utf8.RuneCount(rest) <= 2 {
+			finding = "FS6"
+		}
+	}
 	return
 }
 
@@ -205,24 +240,33 @@ func validAround(input []byte, off int) bool {
 	return false
 }
 
-// checkPositioned checks that the positions of an error lie inside the input.
-func checkPositioned(err error, n int) string {
+// checkPositioned checks that the positions of an error lie inside the input: offsets in [0,n],
+// lines in [1,lines], and the end not before the start (an inverted range points at nothing).
+// unset is true when the problem is a position that was never set (the zero Position: offset 0, line 0,
+// column 0 — lines are 1-based, so this is not a position of any input): finding FS5.
+func checkPositioned(err error, n int, lines int) (msg string, unset bool) {
 	hp, ok := err.(ast.HasPosition)
 	if !ok {
-		return ""
+		return "", false
 	}
 	s := hp.StartPosition()
 	e := hp.EndPosition(nil)
-	if s.Offset < 0 || s.Offset > n {
-		return fmt.Sprintf("%T start offset %d outside [0,%d]", err, s.Offset, n)
+	if s == ast.EmptyPosition {
+		return fmt.Sprintf("%T has an unset start position (offset 0, line 0)", err), true
 	}
-	if e.Offset < 0 || e.Offset > n {
-		return fmt.Sprintf("%T end offset %d outside [0,%d]", err, e.Offset, n)
+	if s.Offset < 0 || s.Offset > n || s.Line < 1 || s.Line > lines {
+		return fmt.Sprintf("%T start position (offset %d, line %d) outside the input (%d bytes, %d lines)", err, s.Offset, s.Line, n, lines), false
+	}
+	if e == ast.EmptyPosition {
+		return fmt.Sprintf("%T has an unset end position (offset 0, line 0) while it starts at offset %d", err, s.Offset), true
+	}
+	if e.Offset < 0 || e.Offset > n || e.Line < 1 || e.Line > lines {
+		return fmt.Sprintf("%T end position (offset %d, line %d) outside the input (%d bytes, %d lines)", err, e.Offset, e.Line, n, lines), false
 	}
 	if e.Offset < s.Offset-1 {
-		return fmt.Sprintf("%T end offset %d before start offset %d", err, e.Offset, s.Offset)
+		return fmt.Sprintf("%T end offset %d before start offset %d", err, e.Offset, s.Offset), false
 	}
-	return ""
+	return "", false
 }
 
 var (
@@ -271,12 +315,14 @@ func stubElaboration() *sema.Elaboration {
 type checkOutcome struct {
 	Err   error
 	Panic any
+	Stack string
 }
 
 func checkGuarded(p *ast.Program) (out checkOutcome) {
 	defer func() {
 		if r := recover(); r != nil {
 			out.Panic = r
+			out.Stack = string(debug.Stack())
 		}
 	}()
 	elab := stubElaboration()
@@ -306,8 +352,23 @@ type c37State struct {
 	started  atomic.Int64
 	knownFS1 bool
 	knownFS2 bool
-	knownFS3 bool
+	replay   bool
+	knownFS4 bool
+	knownFS5 bool
 }
+
+// quiet evaluates a case without touching the evidence counters (used while shrinking).
+func (st *c37State) quiet(c Case, class string) string {
+	saved := st.rec
+	st.rec = evid.Start(discardTB{st.t}, "C37", "")
+	st.rec.Known("") // load the findings list
+	defer func() { st.rec = saved }()
+	return st.one(c, class)
+}
+
+type discardTB struct{ testing.TB }
+
+func (discardTB) Cleanup(func()) {}
 
 // one evaluates one case: prev is lexed first (pooled state), then input. Returns violation text or "".
 func (st *c37State) one(c Case, class string) string {
@@ -324,10 +385,11 @@ func (st *c37State) one(c Case, class string) string {
 	}
 	first := lexAll(input, true)
 	pt := newPosTable(input)
-	msg, fs3, usedDrift := checkTokens(input, first, pt, st.knownFS2)
+	lines := int(pt.line[n])
+	msg, finding, usedDrift := checkTokens(input, first, pt, st.knownFS2)
 	if msg != "" {
-		if fs3 && st.knownFS3 {
-			rec.Excluded("FS3")
+		if finding != "" && st.rec.Known(finding) && !st.replay {
+			rec.Excluded(finding)
 		} else {
 			return "lexer: " + msg
 		}
@@ -337,14 +399,19 @@ func (st *c37State) one(c Case, class string) string {
 	}
 	// the same input again after a neutral input: identical tokens
 	_ = lexAll([]byte("x"), true)
-	second := lexAll(input, false) // this one is not reclaimed before the parser runs (two live lexers)
+	second := lexAll(input, false) // this one is reclaimed only after the parser has run (two live lexers)
+	defer func() {
+		if second.Stream != nil {
+			second.Stream.Reclaim()
+		}
+	}()
 	if first.Panic == nil && second.Panic == nil && first.Err == nil && second.Err == nil {
 		if len(first.Toks) != len(second.Toks) {
 			return fmt.Sprintf("lexer: %d tokens when lexed after another input, %d tokens when lexed again", len(first.Toks), len(second.Toks))
 		}
 		for i := range first.Toks {
-			if a, b := tokKey(first.Toks[i]), tokKey(second.Toks[i]); a != b {
-				return fmt.Sprintf("lexer: token %d differs depending on what was lexed before: %s vs %s", i, a, b)
+			if !sameToken(first.Toks[i], second.Toks[i]) {
+				return fmt.Sprintf("lexer: token %d differs depending on what was lexed before: %s vs %s", i, tokKey(first.Toks[i]), tokKey(second.Toks[i]))
 			}
 		}
 	}
@@ -380,9 +447,20 @@ func (st *c37State) one(c Case, class string) string {
 					outcome = "parse-error-FS1"
 					continue
 				}
-				return fmt.Sprintf("parser reported an internal error: %.600s", text)
+				if strings.Contains(text, "slice bounds out of range") && strings.Contains(text, "parser.parseAuthorization(") && rec.Known("FS8") && !st.replay {
+					// FS8: `auth(` at the end of the input: parseAuthorization takes the source text of the EOF token
+					rec.Excluded("FS8")
+					outcome = "parse-error-FS8"
+					continue
+				}
+				return fmt.Sprintf("parser reported an internal error: %.1800s", text)
 			}
-			if m := checkPositioned(child, n); m != "" {
+			if m, unset := checkPositioned(child, n, lines); m != "" {
+				if unset && st.knownFS5 {
+					rec.Excluded("FS5")
+					rec.Class(fmt.Sprintf("unset-position/%T", child))
+					continue
+				}
 				return "parser error position: " + m + " (" + firstLine(safeErrorText(child)) + ")"
 			}
 		}
@@ -399,7 +477,20 @@ func (st *c37State) one(c Case, class string) string {
 	if pr.Err == nil && pr.Program != nil {
 		co := checkGuarded(pr.Program)
 		if co.Panic != nil {
-			return fmt.Sprintf("checker panicked: %v", co.Panic)
+			// FS4: InclusiveRange instantiated with a wrong number of type arguments keeps a nil member type
+			if st.knownFS4 && strings.Contains(fmt.Sprint(co.Panic), "nil pointer dereference") && bytes.Contains(input, []byte("InclusiveRange")) &&
+				(strings.Contains(co.Stack, "sema.(*InclusiveRangeType).") || hasBadInclusiveRange(input)) {
+				rec.Excluded("FS4")
+				rec.Class("check-panic-FS4")
+				co = checkOutcome{}
+			} else if rec.Known("FS7") && !st.replay && strings.Contains(co.Stack, "sema.(*Checker).checkDefaultDestroyEvent") && bytes.Contains(input, []byte("ResourceDestroyed")) {
+				// FS7: a resource interface declaring ResourceDestroyed(with parameters) next to any other nested composite
+				rec.Excluded("FS7")
+				rec.Class("check-panic-FS7")
+				co = checkOutcome{}
+			} else {
+				return fmt.Sprintf("checker panicked: %v\n%s", co.Panic, trimStack(co.Stack))
+			}
 		}
 		switch e := co.Err.(type) {
 		case nil:
@@ -410,7 +501,12 @@ func (st *c37State) one(c Case, class string) string {
 				if cerrors.IsInternalError(child) {
 					return fmt.Sprintf("checker reported an internal error: %.600s", safeErrorText(child))
 				}
-				if m := checkPositioned(child, n); m != "" {
+				if m, unset := checkPositioned(child, n, lines); m != "" {
+					if unset && st.knownFS5 {
+						rec.Excluded("FS5")
+						rec.Class(fmt.Sprintf("unset-position/%T", child))
+						continue
+					}
 					return "checker error position: " + m + " (" + firstLine(safeErrorText(child)) + ")"
 				}
 			}
@@ -421,7 +517,6 @@ func (st *c37State) one(c Case, class string) string {
 			rec.Class("check-other-error")
 		}
 	}
-	second = lexResult{}
 	rec.CaseH(nontrivial, evid.Hash(string(input)))
 	if nontrivial && rec.WantSample(class+"/"+outcome) {
 		s := c
@@ -466,6 +561,63 @@ func firstLine(s string) string {
 	return s
 }
 
+// hasBadInclusiveRange reports whether the source mentions InclusiveRange with a number of type
+// arguments other than one (predicate of finding FS4: such a type keeps a nil member type).
+func hasBadInclusiveRange(src []byte) bool {
+	key := []byte("InclusiveRange")
+	for off := 0; ; {
+		k := bytes.Index(src[off:], key)
+		if k < 0 {
+			return false
+		}
+		i := off + k + len(key)
+		off = i
+		for i < len(src) && (src[i] == ' ' || src[i] == '\n' || src[i] == '\t' || src[i] == '\r') {
+			i++
+		}
+		if i >= len(src) || src[i] != '<' {
+			return true
+		}
+		depth, commas, content := 0, 0, 0
+	scan:
+		for ; i < len(src); i++ {
+			switch src[i] {
+			case '<', '(', '[', '{':
+				depth++
+			case '>', ')', ']', '}':
+				depth--
+				if depth == 0 {
+					break scan
+				}
+			case ',':
+				if depth == 1 {
+					commas++
+				}
+			case ' ', '\n', '\t', '\r':
+			default:
+				content++
+			}
+		}
+		if commas > 0 || content <= 1 {
+			return true
+		}
+	}
+}
+
+// trimStack keeps the frames of the code under test.
+func trimStack(s string) string {
+	var out []string
+	for _, l := range strings.Split(s, "\n") {
+		if strings.Contains(l, "github.com/onflow/cadence/") && !strings.HasPrefix(l, "\t") {
+			out = append(out, strings.TrimSpace(l))
+			if len(out) >= 6 {
+				break
+			}
+		}
+	}
+	return strings.Join(out, " <- ")
+}
+
 func panicOf(f func()) (p any) {
 	defer func() { p = recover() }()
 	f()
@@ -488,7 +640,8 @@ func TestC37(t *testing.T) {
 	st := &c37State{rec: rec, t: t}
 	st.knownFS1 = rec.Known("FS1")
 	st.knownFS2 = rec.Known("FS2")
-	st.knownFS3 = rec.Known("FS3")
+	st.knownFS4 = rec.Known("FS4")
+	st.knownFS5 = rec.Known("FS5")
 
 	// watchdog: a case that does not finish is a termination violation (generous bound, ≥ 1000× the typical case)
 	done := make(chan struct{})
@@ -523,7 +676,7 @@ func TestC37(t *testing.T) {
 		if err := evid.LoadReplay(f, &c); err != nil {
 			t.Fatalf("bad replay file: %v", err)
 		}
-		st.knownFS1, st.knownFS2, st.knownFS3 = false, false, false
+		st.knownFS1, st.knownFS2, st.replay, st.knownFS4, st.knownFS5 = false, false, true, false, false
 		if msg := st.one(c, "replay"); msg != "" {
 			rec.Violation(t, c, "%s", msg)
 		}
@@ -548,10 +701,44 @@ func TestC37(t *testing.T) {
 		m, _, _ := checkTokens(in, lexAll(in, true), newPosTable(in), false)
 		rec.ReportKnown("FS2", m != "")
 	}
+	if rec.Known("FS4") {
+		pr := parseGuarded([]byte("fun f(): InclusiveRange { return f() }"))
+		rec.ReportKnown("FS4", pr.Program != nil && checkGuarded(pr.Program).Panic != nil)
+	}
+	if rec.Known("FS5") {
+		in := []byte("let v: {auth(W) {d")
+		still := false
+		if pe, ok := parseGuarded(in).Err.(parser.Error); ok {
+			for _, ch := range pe.Errors {
+				if m, unset := checkPositioned(ch, len(in), 1); m != "" && unset {
+					still = true
+				}
+			}
+		}
+		rec.ReportKnown("FS5", still)
+	}
+	if rec.Known("FS7") {
+		pr := parseGuarded([]byte("resource interface J { event a() event ResourceDestroyed(c: Int = 1) }"))
+		rec.ReportKnown("FS7", pr.Program != nil && checkGuarded(pr.Program).Panic != nil)
+	}
+	if rec.Known("FS8") {
+		still := false
+		if pe, ok := parseGuarded([]byte("let x: auth(")).Err.(parser.Error); ok {
+			for _, ch := range pe.Errors {
+				still = still || cerrors.IsInternalError(ch)
+			}
+		}
+		rec.ReportKnown("FS8", still)
+	}
 	if rec.Known("FS3") {
 		in := []byte("/* abc")
-		m, fs3, _ := checkTokens(in, lexAll(in, true), newPosTable(in), false)
-		rec.ReportKnown("FS3", m != "" && fs3)
+		m, f, _ := checkTokens(in, lexAll(in, true), newPosTable(in), false)
+		rec.ReportKnown("FS3", m != "" && f == "FS3")
+	}
+	if rec.Known("FS6") {
+		in := []byte("\"\\(\\")
+		m, f, _ := checkTokens(in, lexAll(in, true), newPosTable(in), false)
+		rec.ReportKnown("FS6", m != "" && f == "FS6")
 	}
 
 	r := evid.Rand(37)
@@ -637,11 +824,23 @@ func TestC37(t *testing.T) {
 		}
 		c := mkCase(class, input, pickPrev(), notes)
 		if msg := st.one(c, class); msg != "" {
+			// minimise before reporting (same kind of violation, same predecessor)
+			_, prev := c.bytes()
+			cls := msgClass(msg)
+			small := shrinkStructured(input, func(b []byte) bool {
+				m := st.quiet(mkCase(class, b, prev, nil), class)
+				return m != "" && msgClass(m) == cls
+			}, 20000)
+			sc := mkCase(class, small, prev, notes)
+			if m := st.quiet(sc, class); m != "" {
+				c, msg = sc, m
+			}
 			rec.Violation(t, c, "%s", msg)
 		}
 		lastInput = input
 	}
-	if evid.Shard() == 0 {
+	if evid.Shard() == 0 && evid.Thorough() {
+		// (thorough tier only: growing the pooled token buffer to 2^19 tokens costs ~10 s per fresh lexer)
 		// the documented token limit: more than 2^19 tokens must be reported as a user error, not a crash
 		big := []byte(strings.Repeat("a ", 1<<18+8))
 		c := mkCase("token-limit", big, nil, nil)
